@@ -5,14 +5,15 @@
      3           the agent scheduler's AddBindTask, same replay
      112         law: after all bind calls, per node, the summed requests of the held tasks
                  (recomputed from the pod specs) stay within the allocatable amount
-     113         law: the hypotheses of cycle_no_overcommit hold of the generated cycle
+     113         law: the hypotheses of cycle_no_overcommit / cycle_sums_within_allocatable (world_ok,
+                 nodes_acct) hold of the generated cycle
      4           preempt / reclaim / allocate / backfill action lists: the initial node ledgers
      114         law: no node overcommitted (now / once terminating pods are gone) after them *)
 From stdpp Require Import gmap.
 From Coq Require Import ZArith List.
 From V Require Import Base.Codec Base.Res Base.ResCodec Sched.LedgerModel Sched.StmtModel Sched.LedgerCodec
                       Sched.GangModel Sched.CycleModel Sched.CycleCodec Sched.CycleLaws Sched.CycleEntry
-                      Sched.NodeCapCheck C02.BindModel.
+                      Sched.NodeCapCheck Sched.NodeSumLemmas Sched.NodeSumCheck C02.BindModel.
 Import ListNotations.
 Open Scope Z_scope.
 
@@ -43,6 +44,7 @@ Definition dBindReq : dec cache_op :=
   | 4 => let* e := dZ in let* t := dTaskSpec in ret (OpEv (EvPodAdd (task_of_spec e t)))
   | 5 => let* t := dPos in let* _ := dBool in ret (OpEv (EvUpdateUnbound t))   (* flag: same resourceVersion (resync) *)
   | 6 => let* t := dPos in ret (OpEv (EvBoundArrives t))
+  | 7 => let* n := dPos in ret (OpEv (EvRemoveNode n))
   | _ => fail
   end.
 
@@ -58,7 +60,7 @@ Definition eBindRes (exact : bool) (r : bind_res) : list Z :=
   | BOk => [0]
   | _ => if negb exact then [1] else
     match r with
-    | BOk => [0] | BNoJob => [1] | BNoTask => [2] | BNoNode => [3] | BDecision => [4]
+    | BOk => [0] | BNoJob => [1] | BNoTask => [2] | BNoNode => [3] | BDecision => [4] | BNotReady => [8]
     | BRefused ErrDifferentNode => [5] | BRefused ErrAlreadyOnNode => [6] | BRefused ErrInsufficient => [7]
     end
   end.
@@ -83,7 +85,7 @@ Definition run_agent (b : bind_case) : list Z :=
     | OpBind r =>
       match known !! b_task r with
       | Some t => let '(ns', x) := agent_add_bind_task (bc_eps b) ns t (b_node r) in (ns', out ++ eBindRes (bc_exact b) x)
-      | None => (ns, out ++ [8])
+      | None => (ns, out ++ [10])
       end
     | OpEv e => (agent_event (bc_eps b) (fun i => known !! i) ns e, out ++ [9])
     end in
@@ -152,6 +154,6 @@ Definition entry (sel : Z) (toks : list Z) : list Z :=
   | 4 => match run_dec dEvictSpec toks with Some x => run_evict_initial x | None => bad_input end
   | 114 => match run_dec dEvictLaw toks with Some (e, ns, ts, h) => eBool (law_nodes_held e ns ts h) | None => bad_input end
   | 112 => match run_dec dBindLaw toks with Some (b, h) => eBool (law_bind b h) | None => bad_input end
-  | 113 => match run_dec dLawIn toks with Some (c, _, _) => eBool (world_ok_b (cc_eps c) (world_of c)) | None => bad_input end
+  | 113 => match run_dec dLawIn toks with Some (c, _, _) => eBool (world_ok_b (cc_eps c) (world_of c) && nodes_acct_b (nodes (w_sess (world_of c)))) | None => bad_input end
   | _ => cycle_entry sel toks
   end.
